@@ -137,6 +137,15 @@ Theorem C40_oracle_holds_on_model :
 Proof. split; [exact serve_ok_model | exact validate_ok_model]. Qed.
 Print Assumptions C40_oracle_holds_on_model.
 
+(** the service is stateless: on a long-lived Server every response of a sequence of
+    requests is the one its own request determines, and the oracle holds at every step *)
+Theorem C40_sequences : forall l s (reqs : list (endpoint * peer_addr * auth * request)),
+  forallb (fun st : endpoint * peer_addr * auth * request * option call =>
+             let '(ep, p, a, q, impl) := st in serve_ok ep l s p a q impl)
+          (map (fun r => let '(ep, p, a, q) := r in (ep, p, a, q, serve ep l s p a q)) reqs) = true.
+Proof. exact seq_ok_model. Qed.
+Print Assumptions C40_sequences.
+
 (** Non-vacuity: a host 10.1.2.3 in the local AS 7, connecting from the IPv4-in-IPv6
     form of its address, obtains the AS-host key 5 -> 7:10.1.2.3 for SCMP, not for
     the generic protocol (also not as 65536), not for another host, not for AS 8;
